@@ -39,6 +39,8 @@ META = {
     "assumptions": ["the decompiler distinguishes non-classical gates only by type, so h (1 qubit) and swap (2 qubits) represent them at depth; "
                     "every other gate kind appears at short length to detect a change of that test",
                     "bitsim is the meaning of a classical run"],
+    # a case is a BLOCK of circuits (all sequences below a two-letter prefix): the per-case CPU cap is sized for a block
+    "case_cap_s": 900,
     "explanation": "states = circuits (gate sequences); transitions = gate appends through the real API plus per-section entry-value evaluations.",
 }
 
